@@ -72,6 +72,10 @@ SYSTEMS = {
     # tracer diffusivity, mobility matrix and interdiffusivity must all carry the same factor
     'cuti-corr': dict(src=('file', 'CuTi.tdb'), elements=['CU', 'TI'], phases=['FCC_A1'], phase='FCC_A1',
                       axes=[('TI', 0.002, 0.04)], T=[623.15, 773.15], correction={'TI': 40.0}),
+    # a solution phase with more than one mole of atoms per formula unit ((CU,TI)4(CU,TI)1: five): only the curvature clauses
+    # apply (the database has no mobility model for it); the curvature of such phases enters the growth law of the KWN model
+    'cuti-cu4ti': dict(src=('file', 'CuTi.tdb'), elements=['CU', 'TI'], phases=['FCC_A1', 'CU4TI'], phase='CU4TI',
+                       axes=[('TI', 0.16, 0.24)], T=[573.15, 673.15, 773.15, 873.15], curvature_only=True),
     'fecrni-fcc-corr': dict(src=('datasets', 'FECRNI_DB'), elements=['FE', 'CR', 'NI'], phases=['FCC_A1', 'BCC_A2'], phase='FCC_A1',
                             axes=[('CR', 0.05, 0.25), ('NI', 0.08, 0.40)], T=[1273.15, 1473.15], correction={'CR': 25.0, 'FE': 0.2}),
 }
@@ -176,6 +180,9 @@ def check_point(s, x, T, order=None):
     evH = np.linalg.eigvalsh(0.5 * (H + H.T))
     if not np.all(evH > 0):
         bad('dMudX-not-positive-definite', 'eigenvalues %s (finite differences: %s)' % (evH.tolist(), ev_fd.tolist()))
+
+    if d.get('curvature_only'):
+        return 'checked', viol, {'errH': errH, 'errD': 0.0}
 
     # ---- mobilities from the callables, evaluated here
     mobc = th.mobCallables.get(phase)
